@@ -519,6 +519,11 @@ func propBindExpr(args []string) string {
 			return fmt.Sprintf("%q: the tree depends on the string value: %s vs %s", text, sexpExpr(e), sexpExpr(e2))
 		}
 	}
+	// P4: only the bindings of the last SetParams call count. parseExprWith gives every second text a parser
+	// that was bound to marker values before (applyParams); none of them may show up in the tree.
+	if perr == nil && e != nil && strings.Contains(e.String(), "stale-decoy") && !strings.Contains(text, "stale-decoy") && !strings.Contains(fmt.Sprint(params), "stale-decoy") {
+		return fmt.Sprintf("%q with %v parses to %s: a value bound by an earlier SetParams call was substituted", text, params, e.String())
+	}
 	// P3: an empty placeholder is an error under every parameter map
 	for _, t := range emptyPlaceholderTexts {
 		if text == t && perr == nil {
